@@ -3,6 +3,7 @@ import os
 from vlib import PKG
 import translate_arith
 import translate_params
+import translate_hedge
 
 
 def gen_arith():
@@ -13,4 +14,8 @@ def gen_params():
     return translate_params.translate(os.path.join(PKG, "pba/params.py"))
 
 
-ALL = [("GenArith", gen_arith), ("GenParams", gen_params)]
+def gen_hedge():
+    return translate_hedge.translate(os.path.join(PKG, "nlp/language_parsing.py"))
+
+
+ALL = [("GenArith", gen_arith), ("GenParams", gen_params), ("GenHedge", gen_hedge)]
